@@ -189,7 +189,13 @@ func runC15(c *Case, budget int, res *CaseResult) {
 					res.fail("well-formed", trunc(sig, 70), fmt.Sprintf("value returned for %s: %s [%s]", t, strings.Join(problems, "; "), desc), cost)
 				}
 				if _, isUnion := c.Unions[t]; !isUnion {
-					roundTrip(c, t, v, cost, desc, res, "rand-")
+					if len(problems) == 0 && c.holdsNilUnion(v, 0) {
+						// the only nil unions of a well-formed value sit in fields marked to be skipped:
+						// such a value is outside C02 (no document is defined for a nil union)
+						res.Counts["round-trip-undefined:nil-union-in-skipped-field"]++
+					} else {
+						roundTrip(c, t, v, cost, desc, res, "rand-")
+					}
 				}
 			}, &st, Shard, NShards)
 		}()
@@ -324,4 +330,43 @@ func normPath(msg string) string {
 		}
 	}
 	return b.String()
+}
+
+// holdsNilUnion reports whether v contains a nil value of a union type.
+func (c *Case) holdsNilUnion(v reflect.Value, depth int) bool {
+	if depth > 12 || !v.IsValid() {
+		return false
+	}
+	if _, ok := c.Unions[v.Type()]; ok {
+		if v.IsNil() {
+			return true
+		}
+		return c.holdsNilUnion(v.Elem(), depth+1)
+	}
+	switch v.Kind() {
+	case reflect.Struct:
+		for i := 0; i < v.NumField(); i++ {
+			if c.holdsNilUnion(v.Field(i), depth+1) {
+				return true
+			}
+		}
+	case reflect.Slice, reflect.Array:
+		for i := 0; i < v.Len(); i++ {
+			if c.holdsNilUnion(v.Index(i), depth+1) {
+				return true
+			}
+		}
+	case reflect.Map:
+		it := v.MapRange()
+		for it.Next() {
+			if c.holdsNilUnion(it.Value(), depth+1) {
+				return true
+			}
+		}
+	case reflect.Pointer, reflect.Interface:
+		if !v.IsNil() {
+			return c.holdsNilUnion(v.Elem(), depth+1)
+		}
+	}
+	return false
 }
